@@ -166,7 +166,9 @@ func rpcDecodeTx(v any) ([]byte, string, bool) {
 func rpcMetaOK(meta any, tt *fixture.TxTruth) bool {
 	m, isObj := meta.(map[string]any)
 	if tt.Spec.NoMeta {
-		return true // no metadata recorded: whatever placeholder the server returns carries no archived payload
+		// no metadata archived: the answer says so (null) - a metadata object would state a status, a fee and balances that
+		// the archive does not hold
+		return meta == nil
 	}
 	if !isObj {
 		return false
@@ -915,6 +917,44 @@ func TestVerifC02(t *testing.T) {
 		}
 		w.close()
 	}
+}
+
+// TestVerifC02Big: one block whose CAR span (from its parent block's node to its own) exceeds 10 MiB - the size at which the
+// getBlock handlers stop prefetching the span in one read. getBlock (gRPC and JSON-RPC) and getTransaction of transactions
+// at the start, in the middle and at the end of the block, each asked twice (the second answer comes out of the caches the
+// first one filled).
+func TestVerifC02Big(t *testing.T) {
+	out := vt.Out(t)
+	defer out.Close()
+	var txs []aTx
+	for i := 0; i < 660; i++ {
+		txs = append(txs, aTx{Sig: i + 3, Accts: []int{1 + i%3}, Loaded: []int{}, Dframes: 1, Mframes: 1, Pad: 2})
+	}
+	ep := aEpoch{Epoch: 1, Blocks: []aBlock{
+		{Slot: 432002, Parent: 431999, Blocktime: 1600000002, Height: -1, Entries: []aEntry{{Txs: []aTx{{Sig: 1, Accts: []int{1}, Loaded: []int{}, Dframes: 1, Mframes: 1}}}}},
+		{Slot: 432003, Parent: 432002, Blocktime: 1600000003, Height: -1, Entries: []aEntry{{Txs: txs}}},
+		{Slot: 432005, Parent: 432003, Blocktime: 1600000005, Height: -1, Entries: []aEntry{{Txs: []aTx{{Sig: 2, Accts: []int{2}, Loaded: []int{}, Dframes: 1, Mframes: 1}}}}},
+	}}
+	w, e := rpcBuildWorld(t, []aEpoch{ep}, vt.Seed()+4100)
+	if e != "" {
+		t.Fatalf("cannot build the archive: %s", e)
+	}
+	defer w.close()
+	multi, nums := w.multi([]int{0}, 2)
+	handler := newMultiEpochHandler(multi, nil)
+	h := func(body string) (int, string, any) { return vCall(handler, body) }
+	o := rpcObs{Kind: "rpc", Case: 1, Arch: []aEpoch{ep}, Loaded: nums, Conc: 2}
+	big := w.eps[0].built.Blocks[1]
+	for pass := 0; pass < 2; pass++ {
+		for _, bt := range w.eps[0].built.Blocks {
+			o.Calls = append(o.Calls, w.grpcGetBlock(multi, bt.Spec.Slot), w.jsonGetBlock(h, bt.Spec.Slot, "base64"))
+		}
+		for _, k := range []int{0, 1, len(big.Txs) / 2, len(big.Txs) - 2, len(big.Txs) - 1} {
+			tt := big.Txs[k]
+			o.Calls = append(o.Calls, w.grpcGetTransaction(multi, tt.Sig, tt.Spec.SigID), w.jsonGetTransaction(h, tt.Sig, tt.Spec.SigID, "base64"))
+		}
+	}
+	out.Emit(o)
 }
 
 // rpcAliases searches absent keys whose in-bucket hash equals that of a stored key, with the index's own hash
